@@ -46,7 +46,7 @@ func (c01) Run(c *fw.Case) {
 		}
 		var ts traceStats
 		m.Trace = ts.hook()
-		for _, im := range gen.UInstances(array) {
+		for _, im := range append(gen.UInstances(array), gen.ULongInstances(r, array, 3)...) {
 			if valid, decided := mc.compare(c, m, rs, im, &ts, "draft 2020-12 (unevaluated* workload)"); decided {
 				if key, nt := ts.summarize(c, valid); nt {
 					c.Nontrivial(key)
